@@ -138,15 +138,16 @@ type LemmaDef struct {
 }
 
 type ContractFile struct {
-	Path    string
-	Pkg     string
-	Funcs   map[string]*FuncContract
-	Order   []string
-	Preds   map[string]*PredDef
-	Lemmas  []*LemmaDef
-	Trusted []string // text of every trusted declaration (for the evidence)
-	Guarded []GuardDecl
-	NonNil  []string // "pkg.Type.Field": trusted facts that a pointer/interface field is never nil
+	Path     string
+	Pkg      string
+	Funcs    map[string]*FuncContract
+	Order    []string
+	Preds    map[string]*PredDef
+	Lemmas   []*LemmaDef
+	Trusted  []string // text of every trusted declaration (for the evidence)
+	Guarded  []GuardDecl
+	ReadOnly []string // "pkgname.Var": package-level variables only assigned by their initialiser (checked structurally for thunder packages)
+	NonNil   []string // "pkg.Type.Field": trusted facts that a pointer/interface field is never nil
 }
 
 // GuardDecl: //@ guarded_by Type.mu: field1, field2 [; exempt fn1, fn2]
@@ -190,7 +191,7 @@ func parseContractFile(path, pkg string) (*ContractFile, error) {
 	// join continuation lines: a line that does not start with a keyword continues the previous one
 	kw := map[string]bool{"func": true, "requires": true, "ensures": true, "assigns": true, "ghost": true, "ghostparam": true,
 		"loop": true, "call": true, "trusted": true, "pred": true, "lemma": true, "pure": true, "maypanic": true,
-		"guarded_by": true, "return": true, "note": true, "entry": true, "upred": true, "holds": true, "keeps": true, "assume": true, "nonnil": true}
+		"guarded_by": true, "return": true, "note": true, "entry": true, "upred": true, "holds": true, "keeps": true, "assume": true, "nonnil": true, "readonly": true}
 	var joined []rawLine
 	for _, r := range raws {
 		first := r.text
@@ -393,6 +394,13 @@ func parseContractFile(path, pkg string) (*ContractFile, error) {
 				return nil, fail(err)
 			}
 			cur.RetGhost = append(cur.RetGhost, u)
+		case "readonly":
+			for _, a := range strings.Split(rest, ",") {
+				if a = strings.TrimSpace(a); a != "" {
+					cf.ReadOnly = append(cf.ReadOnly, a)
+				}
+			}
+			cur = nil
 		case "nonnil":
 			for _, a := range strings.Split(rest, ",") {
 				if a = strings.TrimSpace(a); a != "" {
